@@ -131,6 +131,12 @@ def gen_config(rng, tier, opts):
     if not cfg["is_computation_time_required"]:
         # the MSE-of-estimators check reads computation times; without them only the other checks are requested
         cfg["exec_sim_check"] = {"consistency": rng.random() < 0.5, "mse_of_estimators": False, "mse_of_empi_dists": rng.random() < 0.5, "physicality_violation": True}
+    # drawn from a stream of its own, so that the other choices of a seed stay what they were
+    import random as _random
+
+    rng2 = _random.Random(f"companion|{cfg['seed_data']}|{cfg['seed_qoperation']}|{cfg['n_rep']}|{len(cases)}|{nd}")
+    if rng2.random() < 0.1 and not heavy and len(cases) <= 4:
+        cfg["companion"] = gen_companion(rng2, cfg)
     return cfg
 
 
@@ -149,6 +155,7 @@ def gen_single_config(rng, tier, opts):
     """configuration for the single-setting entry point execute_simulation."""
     cfg = gen_config(rng, tier, opts)
     cfg["entry"] = "single"
+    cfg.pop("companion", None)
     cfg["cases"] = cfg["cases"][:1]
     cfg["n_sample"] = 1
     cfg["parallel_mode"] = {}
@@ -199,6 +206,23 @@ def build_case(c):
         ),
     )
     return LossMinimizationEstimator(), loss, algo
+
+
+def gen_companion(rng, cfg):
+    """a second test setting for the same call: same kind of unknown, its own (or the same) seeds."""
+    ut = cfg["unknown"][0]
+    same = rng.random() < 0.4
+    return {"position": rng.choice(["before", "after"]), "unknown_name": rng.choice(UNKNOWNS[ut]), "n_rep": rng.choice([1, 2]),
+            "seed_data": cfg["seed_data"] if same else rng.choice([0, 5, cfg["seed_data"] + 1]), "seed_qoperation": cfg["seed_qoperation"] if same else rng.choice([1, cfg["seed_qoperation"] + 1]),
+            "n_cases": rng.randint(1, len(cfg["cases"]))}
+
+
+def companion_config(cfg):
+    c = cfg["companion"]
+    out = {k: v for k, v in cfg.items() if k != "companion"}
+    out.update(unknown=[cfg["unknown"][0], c["unknown_name"]], n_rep=c["n_rep"], n_sample=1, seed_data=c["seed_data"], seed_qoperation=c["seed_qoperation"],
+               num_data=list(cfg["num_data"][:1]), cases=list(cfg["cases"][:c["n_cases"]]))
+    return out
 
 
 def build_test_setting(cfg):
